@@ -1,0 +1,32 @@
+//go:build verif
+// +build verif
+
+package config
+
+import "time"
+
+// verifNetTimeout overrides NetTimeout when non-zero (verification builds only).
+var verifNetTimeout time.Duration
+
+// VerifSet installs a configuration without reading files or flags.
+func VerifSet(auth, cacheGop bool, hlsPath string, hlsFragment int) {
+	globalC = &config{
+		ListenAddr:  "127.0.0.1:0",
+		Auth:        auth,
+		CacheGop:    cacheGop,
+		HlsPath:     hlsPath,
+		HlsFragment: hlsFragment,
+	}
+}
+
+// VerifSetProviders sets the user / route provider configuration.
+func VerifSetProviders(users, routes *ProviderConfig) {
+	if globalC == nil {
+		globalC = &config{ListenAddr: "127.0.0.1:0"}
+	}
+	globalC.Users = users
+	globalC.Routetable = routes
+}
+
+// VerifSetNetTimeout overrides NetTimeout (0 restores the default).
+func VerifSetNetTimeout(d time.Duration) { verifNetTimeout = d }
